@@ -410,6 +410,10 @@ fn real_components() -> Vec<String> {
         "mithril-stm: key registration, signing, lottery, aggregation, verification (BLS via blst)",
         "mithril-client: CertificateClient::verify_chain + MithrilCertificateVerifier (the judge named by C14 / C15)",
         "mithril-persistence: connection builder, migrations, query layer (with the cfg(mithril_verif) statement hook)",
+        "message-queue ingress of the aggregator: mithril-dmq DmqConsumerClientDeduplicator, SignatureConsumerDmq, SequentialSignatureProcessor (wired as create_signature_processor wires them) in front of the certifier",
+        "CardanoTransactions: the aggregator's (and, for C20, each signer's) real chain data importer, block range root computation, signable builder, prover and artifact builder over the block scanner double",
+        "C20: real mithril-signer nodes - StateMachine, SignerRunner, SignerCertifierService, MithrilSingleSigner, MithrilEpochService, repositories on file-backed SQLite, signable builders, upkeep - assembled by hand around the simulated link (as the repository's state-machine tester assembles them)",
+        "operator actions: restart, restart with other protocol parameters in the configuration (real ServeCommandConfiguration -> DependenciesBuilder graph rebuilt over the node's directory)",
     ]
     .iter()
     .map(|s| s.to_string())
@@ -419,10 +423,11 @@ fn real_components() -> Vec<String> {
 fn stub_components() -> Vec<String> {
     [
         "Cardano node: SimChainObserver / SimImmutableObserver over the simulated chain (per-node lagging views)",
-        "immutable digester (SimDigester: Merkle tree is a function of the beacon), FakeSnapshotter, DumbUploader, DumbBlockScanner, EraReaderDummyAdapter",
+        "immutable digester (SimDigester: Merkle tree is a function of the beacon), FakeSnapshotter, DumbUploader, EraReaderDummyAdapter; block scanner (SimBlockScanner: block n in slot 10 n with one transaction, no forks - forks and the real chain reader are the import engine's subject)",
         "HTTP transport: requests are in-process calls into the real warp filter (no socket); the simulated network owns delivery, loss, duplication, reordering, delay and corruption",
-        "signers are light actors built on the repository's ProtocolInitializer / SignerBuilder / SingleSigner (they sign the aggregator's open message); genesis bootstrap is performed by the harness with the repository's CertificateGenesisProducer",
-        "DMQ node, cloud uploaders, follower aggregator synchronisation: not simulated",
+        "signers (all properties but C20) are light actors built on the repository's ProtocolInitializer / SignerBuilder / SingleSigner: they ask the aggregator for the registration parameters and sign its open message; genesis bootstrap is performed by the harness with the repository's CertificateGenesisProducer",
+        "DMQ node and Pallas DMQ client: a simulated node hands (payload, authenticated pool id) pairs, singly or in batches, to the repository's consumer chain; the signer-side publishers (HTTP / DMQ clients, retry / delay decorators, DependenciesBuilder::build of the signer) are replaced by the simulated link",
+        "cloud uploaders, follower aggregator synchronisation: not simulated",
     ]
     .iter()
     .map(|s| s.to_string())
@@ -448,7 +453,7 @@ impl Engine for NetEngine {
         Some(Plan {
             runs,
             level: if property == "C15" { "fault_enumeration" } else { "exploration" },
-            rule: "one run = one swarm-generated scenario (1-8 parties, stake profile, (k, m, phi_f) with quorum sometimes barely reachable, entity types, enabled fault kinds with log-uniform rates, ~20% fault-free) executed as a seeded schedule of concrete events (tick, background poll, epoch / immutable progress, per-node chain-view sync, register, sign, deliver / duplicate / damage / drop, expire, restart, forge, DB fault); invariants after every event. A run is non-trivial iff at least one non-genesis certificate was sealed and, in fault-injecting scenarios, at least one fault kind fired; distinct = distinct hash of the sequence of executed event kinds plus the set of fault kinds that fired.".into(),
+            rule: "one run = one swarm-generated scenario (1-8 parties, stake profile, (k, m, phi_f) with quorum sometimes barely reachable, entity types, enabled fault kinds with log-uniform rates, ~20% fault-free) executed as a seeded schedule of concrete events (tick, background poll, epoch / immutable / block progress, per-node chain-view sync between or inside a cycle, register, sign, deliver through HTTP or the message queue (singly or in batches) / duplicate / damage / drop, expire, restart, restart with other protocol parameters, forged and wrong-epoch-key submissions, DB fault; for C20 cycles of real signer nodes under link policies); invariants after every event; one simulated epoch stands for five days of mainnet (counter sim_epochs = simulated time covered). A run is non-trivial iff at least one non-genesis certificate was sealed and, in fault-injecting scenarios, at least one fault kind fired; distinct = distinct hash of the sequence of executed event kinds plus the set of fault kinds that fired.".into(),
             assumptions: vec![
                 "a crash is a process kill: SQLite-committed state and files survive, nothing else; durability below SQLite's commit is not modelled".into(),
                 "one node runs at a time (single driven runtime); background tasks advance only in explicit poll events".into(),
